@@ -463,7 +463,9 @@ class Schedule(Strategy):
             if charge_now:
                 max_power = max(0, min(gc.target, gc.cur_max_power) - gc.get_current_load())
             else:
-                max_power = max(0, abs(gc.target - gc.get_current_load()))
+                # don't exceed GC limit when feeding in
+                max_power = max(0, min(abs(gc.target - gc.get_current_load()),
+                                       gc.cur_max_power + gc.get_current_load()))
             max_power = min(cs.max_power, max_power)
 
             # during the last window always aim for desired SoC no matter if in charge
